@@ -395,9 +395,92 @@ static void open_failure(Src& s) {
     vp::nontrivial(vp::hash_str(what));
 }
 
+// reliable_write() on its own with sizes around its internal piece limit (100 MiB per write call): every byte arrives once and in
+// order, whatever the kernel does with the individual calls (short writes, EINTR); a failing call is reported and what is in the file
+// then is a prefix of the data.
+static void big_write(Src& s) {
+    const size_t piece = 100UL * 1024UL * 1024UL;
+    static const long around[] = {-1, 0, 1, 4096, 1000003};
+    const size_t size = (1 + s.draw(2)) * piece + static_cast<size_t>(around[s.draw(5)]);
+    const int mode = static_cast<int>(s.weighted({2, 2, 2, 2}));  // 0 plain, 1 short writes, 2 EINTR, 3 failure at an offset
+    std::string data(size, '\0');
+    {
+        uint64_t x = 88172645463325252ULL + s.draw(1000);
+        for (size_t i = 0; i + 8 <= size; i += 8) {
+            x ^= x << 13;
+            x ^= x >> 7;
+            x ^= x << 17;
+            std::memcpy(&data[i], &x, 8);
+        }
+    }
+    const std::string path = out_path() + "-big";
+    int fd = ::open(path.c_str(), O_CREAT | O_TRUNC | O_WRONLY, 0644);
+    VP_CHECK(fd >= 0, "harness", "cannot create scratch file");
+    struct stat st;
+    ::fstat(fd, &st);
+    reset_interposer();
+    g.ino = static_cast<unsigned long>(st.st_ino);
+    g.dev = static_cast<unsigned long>(st.st_dev);
+    long fail_at = -1;
+    if (mode == 1) g.short_writes = true;
+    if (mode == 2) g.eintr_left = 1 + static_cast<int>(s.draw(5));
+    if (mode == 3) {
+        static const long offs[] = {0, 1, -1, 4096};
+        fail_at = static_cast<long>((1 + s.draw(size / piece)) * piece) + offs[s.draw(4)];
+        if (fail_at >= static_cast<long>(size)) fail_at = static_cast<long>(size) - 1;
+        g.fail_at = fail_at;
+        g.err = EIO;
+        g.partial_first = s.boolean();
+    }
+    const std::string what = "reliable_write of " + std::to_string(size) + " bytes, " + (mode == 0 ? "plain" : mode == 1 ? "every write is short" : mode == 2 ? "the first writes are interrupted" : "the write crossing byte " + std::to_string(fail_at) + " fails");
+    if (vp::want_desc()) vp::describe(what);
+    g.active = true;
+    bool threw = false;
+    try {
+        osmium::io::detail::reliable_write(fd, data.data(), size);
+    } catch (const std::system_error&) {
+        threw = true;
+    }
+    g.active = false;
+    ::syscall(SYS_close, fd);
+    // compare the file with the data, piece by piece
+    size_t file_size = 0, first_diff = SIZE_MAX;
+    {
+        std::ifstream f(path, std::ios::binary);
+        std::string chunk(1 << 20, '\0');
+        while (f) {
+            f.read(&chunk[0], static_cast<std::streamsize>(chunk.size()));
+            const size_t n = static_cast<size_t>(f.gcount());
+            if (n == 0) break;
+            if (first_diff == SIZE_MAX && (file_size + n > size || std::memcmp(chunk.data(), data.data() + file_size, n) != 0)) {
+                for (size_t i = 0; i < n; ++i)
+                    if (file_size + i >= size || chunk[i] != data[file_size + i]) {
+                        first_diff = file_size + i;
+                        break;
+                    }
+            }
+            file_size += n;
+        }
+    }
+    ::unlink(path.c_str());
+    if (mode == 3) {
+        VP_CHECK(threw, "write-error-lost", "the operating system reported a failure but reliable_write() returned normally | " << what);
+        VP_CHECK(first_diff == SIZE_MAX && file_size <= size, "bytes-written-wrongly", "after the reported failure the file (" << file_size << " bytes) is not a prefix of the data, first difference at byte " << first_diff << " | " << what);
+    } else {
+        VP_CHECK(!threw, "writer-fails-without-fault", "reliable_write() reported an error although no write failed | " << what);
+        VP_CHECK(file_size == size && first_diff == SIZE_MAX, "bytes-written-wrongly", "the file has " << file_size << " bytes" << (first_diff == SIZE_MAX ? std::string{} : ", first difference at byte " + std::to_string(first_diff)) << " | " << what);
+    }
+    vp::count("big_write");
+    vp::nontrivial(vp::hash_str(what));
+}
+
 static void prop(Src& s) {
     if (s.chance(1, 400)) {
         encoder_failure(s);
+        return;
+    }
+    if (s.chance(1, 400)) {
+        big_write(s);
         return;
     }
     if (s.chance(1, 40)) {
